@@ -639,7 +639,7 @@ impl<const S: usize> ClientConnectionHandler<S> {
             if let Some(delay) = &mut self.start_sending_timeout {
                 // If we have never reached the `Sending` state within the specified
                 // time, we abort and halt this connection.
-                if delay.poll_unpin(cx).is_ready() {
+                if vprobe!("ct", delay.poll_unpin(cx)).is_ready() {
                     self.start_sending_timeout.take();
                     self.msg.take();
                     self.close_sink_on_error("start_sending_timeout");
@@ -656,7 +656,7 @@ impl<const S: usize> ClientConnectionHandler<S> {
                 (None, SinkState::Ready(sink)) => {
                     // When `poll_flush` returns `Ok`, it means the sending just finished.
                     // When `poll_flush` returns `Err`, it means the sending just failed.
-                    if ready!(sink.poll_flush_unpin(cx)).is_err() {
+                    if ready!(vprobe!("cf", sink.poll_flush_unpin(cx))).is_err() {
                         self.close_sink_on_error("poll_flush_unpin");
                         self.change_sending_state(SendingState::Failed(self.connection_id));
                         continue;
@@ -668,14 +668,14 @@ impl<const S: usize> ClientConnectionHandler<S> {
                     self.change_sending_state(SendingState::Ready);
                 }
                 (msg @ Some(_), SinkState::Ready(sink)) => {
-                    if ready!(sink.poll_ready_unpin(cx)).is_err() {
+                    if ready!(vprobe!("cr", sink.poll_ready_unpin(cx))).is_err() {
                         self.close_sink_on_error("poll_ready_unpin");
                         continue;
                     }
 
                     let msg = msg.take().expect("msg is always Some here");
 
-                    if sink.start_send_unpin(&msg).is_err() {
+                    if vprobe!("cs", sink.start_send_unpin(&msg)).is_err() {
                         self.msg = Some(msg);
                         self.close_sink_on_error("start_send_unpin");
                         continue;
